@@ -7,6 +7,7 @@ Helper lemmas for C20 (DTLSR). Property-level statements are in `Dtn7.Props.C20`
   §D  Bellman–Ford: n rounds are exact for weights ≥ 0 (simple paths, pigeonhole); the reference table
   §E  the ported library loop: label-correcting invariant, partial correctness of `libShortest`/`libTable`
   §F  the graph `computeRoutingTable` builds (costs ≥ 0 for past loss times); unicast sender choice
+  §G  the node index (nodeIndex / indexNode are inverse bijections, own node = 0)
 -/
 import Dtn7.Model.Dtlsr
 
@@ -2127,5 +2128,121 @@ theorem cost_bound_of_bf {g : Graph} (hw : ∀ e ∈ g.arcs, 0 ≤ e.2.2) (hwf :
   have := hb d hd
   rw [hc'] at this
   simpa using this
+
+
+/-! ## §G The node index -/
+
+theorem newNode_nodup {ix : List Nat} (h : ix.Nodup) (id : Nat) : (newNode ix id).Nodup := by
+  unfold newNode
+  split
+  · exact h
+  · rename_i hc
+    have : id ∉ ix := by simpa using hc
+    exact List.nodup_append.mpr ⟨h, by simp, by
+      intro a ha b hb hab
+      simp at hb
+      subst hb; subst hab
+      exact this ha⟩
+
+theorem newNode_head {ix : List Nat} (h : ix ≠ []) (id : Nat) : (newNode ix id).head? = ix.head? := by
+  unfold newNode
+  split
+  · rfl
+  · cases ix with
+    | nil => exact absurd rfl h
+    | cons a rest => rfl
+
+theorem newNode_mem {ix : List Nat} (id x : Nat) : x ∈ newNode ix id ↔ x = id ∨ x ∈ ix := by
+  unfold newNode
+  split
+  · rename_i hc
+    have : id ∈ ix := by simpa using hc
+    constructor
+    · exact Or.inr
+    · rintro (h | h)
+      · subst h; exact this
+      · exact h
+  · simp [or_comm]
+
+theorem foldl_newNode_nodup (l : List Nat) : ∀ {ix : List Nat}, ix.Nodup → (l.foldl newNode ix).Nodup := by
+  induction l with
+  | nil => intro ix h; exact h
+  | cons a rest ih => intro ix h; exact ih (newNode_nodup h a)
+
+theorem foldl_newNode_head (l : List Nat) : ∀ {ix : List Nat}, ix ≠ [] →
+    (l.foldl newNode ix).head? = ix.head? ∧ l.foldl newNode ix ≠ [] := by
+  induction l with
+  | nil => intro ix h; exact ⟨rfl, h⟩
+  | cons a rest ih =>
+    intro ix h
+    have hne : newNode ix a ≠ [] := by
+      unfold newNode; split
+      · exact h
+      · simp
+    obtain ⟨h1, h2⟩ := ih hne
+    exact ⟨by simp only [List.foldl_cons]; rw [h1, newNode_head h], by simpa only [List.foldl_cons] using h2⟩
+
+/-- Well-formed node index: no node twice, the own node first. -/
+def IndexOk (self : Nat) (s : State) : Prop := s.indexNode.Nodup ∧ s.indexNode.head? = some self
+
+theorem indexOk_init (self : Nat) : IndexOk self (State.init self) := by
+  simp [IndexOk, State.init]
+
+theorem indexOk_ne_nil {self : Nat} {s : State} (h : IndexOk self s) : s.indexNode ≠ [] := by
+  intro e
+  have := h.2
+  rw [e] at this
+  cases this
+
+theorem indexOk_notify {self : Nat} {s : State} (h : IndexOk self s) (d : PeerData) :
+    IndexOk self (s.notify d) := by
+  unfold State.notify
+  split
+  · have hne := indexOk_ne_nil h
+    simp only [IndexOk]
+    split
+    · have hne' : newNode s.indexNode d.id ≠ [] := by
+        unfold newNode; split
+        · exact hne
+        · simp
+      refine ⟨foldl_newNode_nodup _ (newNode_nodup h.1 _), ?_⟩
+      rw [(foldl_newNode_head _ hne').1, newNode_head hne]
+      exact h.2
+    · refine ⟨foldl_newNode_nodup _ h.1, ?_⟩
+      rw [(foldl_newNode_head _ hne).1]
+      exact h.2
+  · exact h
+
+theorem indexOk_peerAppeared {self : Nat} {s : State} (h : IndexOk self s) (p : Nat) :
+    IndexOk self (s.peerAppeared p) := by
+  simp only [IndexOk, State.peerAppeared]
+  exact ⟨newNode_nodup h.1 p, by rw [newNode_head (indexOk_ne_nil h)]; exact h.2⟩
+
+theorem indexOk_peerDisappeared {self : Nat} {s : State} (h : IndexOk self s) (now p : Nat) :
+    IndexOk self (s.peerDisappeared now p) := h
+
+/-- In a duplicate-free index, `nodeIndex` and `indexNode` are inverse to each other. -/
+theorem idxOf_getD {ix : List Nat} (h : ix.Nodup) {i : Nat} (hi : i < ix.length) :
+    idxOf ix (ix.getD i 0) = i := by
+  unfold idxOf
+  have hget : ix.getD i 0 = ix[i] := by simp [List.getD, hi]
+  rw [hget]
+  have : ix.idxOf ix[i] = i := List.Nodup.idxOf_getElem h i hi
+  simp [this, hi]
+
+theorem getD_idxOf {ix : List Nat} {id : Nat} (h : id ∈ ix) : ix.getD (idxOf ix id) 0 = id := by
+  unfold idxOf
+  have hlt : ix.idxOf id < ix.length := List.idxOf_lt_length_of_mem h
+  simp [hlt, List.getD]
+
+theorem idxOf_self {self : Nat} {s : State} (h : IndexOk self s) : idxOf s.indexNode self = 0 := by
+  have h2 := h.2
+  cases hix : s.indexNode with
+  | nil => rw [hix] at h2; cases h2
+  | cons a rest =>
+    rw [hix] at h2
+    simp at h2
+    subst h2
+    simp [idxOf]
 
 end Dtn7.Dtlsr.Lemmas
